@@ -57,6 +57,18 @@ pub fn alphabet_doc(name: &str) -> Vec<(&'static str, OwnedValue)> {
         "json_edge" => vec![("j", jobj(json!({}))), ("j", jobj(json!({"empty_arr": [], "empty_obj": {}, "": "empty key", "s": ""})))],
         "unicode" => vec![("t", s("h\u{e9}llo \u{4e2d}\u{6587} \u{1f600} \u{0}nul \u{301}combining"))],
         "text40k" => vec![("t", OwnedValue::Str("lorem ipsum dolor ".repeat(2300)))],
+        // 24 kB that do not compress: a stored block larger than the 8 kB buffer of the file writer
+        "noise24k" => {
+            let mut x = 0x9e3779b97f4a7c15u64;
+            let mut v = String::with_capacity(24_000);
+            while v.len() < 24_000 {
+                x ^= x << 13;
+                x ^= x >> 7;
+                x ^= x << 17;
+                v.push_str(&format!("{x:016x}"));
+            }
+            vec![("t", OwnedValue::Str(v))]
+        }
         "stored_and_not" => vec![("ns", s("not stored text")), ("t", s("stored text")), ("ns", s("again not stored"))],
         "mixed_all" => vec![
             ("t", s("a")),
@@ -113,6 +125,9 @@ pub struct Case {
     pub deleted: Vec<usize>,
     /// 0 no merge; 1 merge (segments in creation order); 2 merge (reverse order)
     pub merge: u8,
+    /// 0: RamDirectory; 1 / 2: a directory whose writers accept half of / one byte of every write
+    #[serde(default)]
+    pub short_writes: u8,
 }
 
 type Expected = Vec<(u32, OwnedValue)>;
@@ -143,7 +158,15 @@ fn short(v: &Expected) -> String {
 
 pub fn check_case(c: &Case, st: &mut Stats) -> Option<(String, String)> {
     let schema = make_schema();
-    let mut index = Index::builder().schema(schema.clone()).settings(settings_of(&c.cfgs[0])).create_in_ram().ok()?;
+    let mut index = if c.short_writes == 0 {
+        Index::builder().schema(schema.clone()).settings(settings_of(&c.cfgs[0])).create_in_ram().ok()?
+    } else {
+        let sim = crate::simdir::SimDirectory::new();
+        sim.set_log_enabled(false);
+        sim.set_short_write(if c.short_writes == 1 { crate::simdir::ShortWrite::Half } else { crate::simdir::ShortWrite::OneByte });
+        st.count("short_write_cases");
+        Index::builder().schema(schema.clone()).settings(settings_of(&c.cfgs[0])).open_or_create(sim).ok()?
+    };
     let idf = schema.get_field("id").unwrap();
     let mut seg_ids: Vec<SegmentId> = vec![];
     let mut k = 0usize;
@@ -334,7 +357,7 @@ pub fn run(ctx: &Ctx) -> Report {
             if !thorough && s.len() == 2 && (i + ci) % 2 == 1 {
                 continue;
             }
-            cases.push(Case { docs: s.clone(), segments: vec![s.len()], cfgs: vec![c.clone()], deleted: vec![], merge: 0 });
+            cases.push(Case { docs: s.clone(), segments: vec![s.len()], cfgs: vec![c.clone()], deleted: vec![], merge: 0, short_writes: 0 });
         }
     }
     // patterned stores: skip-index layers (8-way) with tiny blocks
@@ -344,8 +367,8 @@ pub fn run(ctx: &Ctx) -> Report {
         }
         let docs: Vec<String> = (0..n).map(|k| if k % 50 == 49 { "json_nested".to_string() } else { format!("pat{k}") }).collect();
         for c in [cfg("lz4", 1, false), cfg("none", 64, true), cfg("zstd", 16_384, false)] {
-            cases.push(Case { docs: docs.clone(), segments: vec![n], cfgs: vec![c.clone()], deleted: vec![], merge: 0 });
-            cases.push(Case { docs: docs.clone(), segments: vec![n], cfgs: vec![c.clone()], deleted: (0..n).filter(|i| i % 3 == 1).collect(), merge: 0 });
+            cases.push(Case { docs: docs.clone(), segments: vec![n], cfgs: vec![c.clone()], deleted: vec![], merge: 0, short_writes: 0 });
+            cases.push(Case { docs: docs.clone(), segments: vec![n], cfgs: vec![c.clone()], deleted: (0..n).filter(|i| i % 3 == 1).collect(), merge: 0, short_writes: 0 });
         }
     }
     // merges: stacking (>= 6 blocks, no deletes, same compressor) vs re-compression (deletes / compressor change)
@@ -363,18 +386,34 @@ pub fn run(ctx: &Ctx) -> Report {
                             if !thorough && (di + merge as usize) % 2 == 1 && ca == cb {
                                 continue;
                             }
-                            cases.push(Case { docs: docs.clone(), segments: vec![n, n], cfgs: vec![cfg(ca, bs, false), cfg(cb, bs, di % 2 == 1)], deleted: deleted.clone(), merge });
+                            cases.push(Case { docs: docs.clone(), segments: vec![n, n], cfgs: vec![cfg(ca, bs, false), cfg(cb, bs, di % 2 == 1)], deleted: deleted.clone(), merge, short_writes: 0 });
                         }
                     }
                 }
             }
         }
     }
+    // short writes: the directory's writers accept only part of every write (io::Write allows it); small and
+    // large (incompressible, > 8 kB) blocks, every compressor, with and without the compressor thread, merged
+    for sw in [1u8, 2] {
+        for comp in comps {
+            for th in [false, true] {
+                for bs in [64usize, 16_384] {
+                    if sw == 2 && bs == 64 && !thorough {
+                        continue;
+                    }
+                    let docs: Vec<String> = vec!["text".into(), "noise24k".into(), "u64".into(), "noise24k".into(), "text2".into(), "mixed_all".into()];
+                    cases.push(Case { docs: docs.clone(), segments: vec![3, 3], cfgs: vec![cfg(comp, bs, th)], deleted: vec![], merge: 0, short_writes: sw });
+                    cases.push(Case { docs, segments: vec![3, 3], cfgs: vec![cfg(comp, bs, th)], deleted: vec![4], merge: 1, short_writes: sw });
+                }
+            }
+        }
+    }
     // three segments, all deleted -> empty merge result
-    cases.push(Case { docs: (0..6).map(|k| format!("pat{k}")).collect(), segments: vec![2, 2, 2], cfgs: vec![cfg("lz4", 1, false)], deleted: (0..6).collect(), merge: 1 });
+    cases.push(Case { docs: (0..6).map(|k| format!("pat{k}")).collect(), segments: vec![2, 2, 2], cfgs: vec![cfg("lz4", 1, false)], deleted: (0..6).collect(), merge: 1, short_writes: 0 });
     // huge values around the 2^21 length-prefix boundary
     for name in if thorough { vec!["len2m_minus1", "len2m", "len2m_plus1", "len4m"] } else { vec!["len2m"] } {
-        cases.push(Case { docs: vec!["text".into(), name.into(), "u64".into()], segments: vec![3], cfgs: vec![cfg("lz4", 16_384, false)], deleted: vec![], merge: 0 });
+        cases.push(Case { docs: vec!["text".into(), name.into(), "u64".into()], segments: vec![3], cfgs: vec![cfg("lz4", 16_384, false)], deleted: vec![], merge: 0, short_writes: 0 });
     }
     cases.sort_by_key(|c| std::cmp::Reverse(c.docs.len() + if c.docs.iter().any(|d| d.starts_with("len2m") || d == "len4m") { 10_000 } else { 0 }));
     let (st, done) = par_for(ctx, cases.len(), |i, st| {
